@@ -4,6 +4,7 @@ forms these two functions use:
 
   {x.name for x in E} / [x.name for x in E]   py_names_set / py_names_list      (Base/PyOpsEnum.v)
   a in E / a not in E  (E a value, not a literal)   py_in_dyn
+  any(a is v for v in E)                        py_any_is  (identity with one of the elements)
   self.<attr>[a]                                py_enum_getitem
   self._validate(value)                         the generated Enum__validate
   if c: x = e   (no else; nested allowed)       x = (e if c else x)   (single assignment form)
@@ -18,7 +19,7 @@ import copy
 import os
 
 from harness import core
-from harness.genmods import py2v
+from harness.genmods import py2v, py2v_enum
 
 # what the model knows of an Enum field object (Fields/EnumGuardProofs.v enum_cls_self / enum_lit_self)
 KNOWN_ATTRS = {"_is_enum", "_valid_enum_values", "_enum_class", "values"}
@@ -73,6 +74,11 @@ class TrE(py2v.Tr):
         return super().val(e)
 
     def cond(self, e):
+        hit = py2v_enum.Tr2.any_is(self, e)     # any(<x> is <v> for <v> in <local or self.attr>)
+        if hit is not None:
+            b1, a1 = self.val(hit[0])
+            b2, a2 = self.val(hit[1])
+            return self.seq(b1 + b2, "py_any_is %s %s" % (a1, a2))
         if isinstance(e, ast.Compare) and len(e.ops) == 1 and isinstance(e.ops[0], (ast.In, ast.NotIn)) \
                 and not isinstance(e.comparators[0], (ast.Tuple, ast.List, ast.Set)) \
                 and not (isinstance(e.comparators[0], ast.Name) and e.comparators[0].id in self.dicts):
